@@ -45,7 +45,7 @@ theorem getters_eq_bound (hM : Lawful M) (hp : M.pubValid = false) (ops : List (
   have h : ∀ k, (run M ops).pub k = (run M ops).bound k := by
     intro k
     rcases (inv_run hM ops).pub k with h | ⟨h, _⟩
-    · exact h
+    · exact h.2
     · rw [hp] at h; cases h
   refine ⟨h, ?_⟩
   unfold getAll
@@ -69,11 +69,11 @@ def getters_eq_enforced_statement (M : RuleMod R) : Prop :=
 
 /-- modules whose getters read a separate map of valid rules (the circuit breaker's `breakerRules`): the getter equals
     the enforced rules of a resource whenever every valid rule handed over for it got a controller -/
-theorem getters_eq_enforced_partial (hM : Lawful M) (hne : ∀ a b, M.equals a b = false) (ops : List (Op R)) (k : String)
+theorem getters_eq_enforced_partial (hM : Lawful M) (hp : M.pubValid = true) (ops : List (Op R)) (k : String)
     (h : ∀ r ∈ validList M (latest M ops k), built M k r = true) :
     getRes (run M ops) k = (run M ops).enf k := by
-  rcases (inv_run hM ops).pub k with hp | ⟨hp, hv⟩
-  · exact hp.trans ((inv_run hM ops).boundEq hne k)
+  rcases (inv_run hM ops).pub k with ⟨hp', _⟩ | ⟨_, hv | ⟨hv, he⟩⟩
+  · rw [hp] at hp'; cases hp'
   · show (run M ops).pub k = _
     rw [hv, (inv_run hM ops).enf k]
     unfold validList buildList
@@ -87,6 +87,24 @@ theorem getters_eq_enforced_partial (hM : Lawful M) (hne : ∀ a b, M.equals a b
     rw [e]
     have : M.norm = id := funext (hM.pub_norm hp)
     rw [this, List.map_id]
+  · show (run M ops).pub k = _
+    rw [hv, he]
+
+/-- **one controller per enforced rule, pairwise distinct objects**: the controllers in force for a resource are bound,
+    in order, to the rule objects the getters/`bound` show, and no controller object occurs twice — a second identical
+    rule of the same load gets its own controller (own pacer / breaker / counters), whatever was loaded before -/
+theorem controllers_distinct (ops : List (Op R)) (k : String) :
+    (((runC M ops).2.ctrl k).map Prod.snd).Nodup ∧
+    ((runC M ops).2.ctrl k).map Prod.fst = (run M ops).bound k := by
+  have h := cinv_run (M := M) ops
+  exact ⟨h.nodup k, by rw [h.fst k, runC_fst]⟩
+
+theorem controllers_count (hM : Lawful M) (ops : List (Op R)) (k : String) :
+    ((runC M ops).2.ctrl k).length = ((run M ops).enf k).length := by
+  have h1 := congrArg List.length (controllers_distinct (M := M) ops k).2
+  have h2 := congrArg List.length ((inv_run hM ops).bound k)
+  simp only [List.length_map] at h1 h2
+  omega
 
 /-- pinned tree: a circuit-breaker rule with an unregistered strategy passes `IsValidRule`, is returned by both
     getters, and no breaker exists for it; loaded through the per-resource path it is *not* returned -/
